@@ -1,7 +1,10 @@
 """C15 — CQRS buses and processors dispatch by type name with the configured ack policy."""
 from . import common as C
 
-HEADER = 'From WM Require Import Base.Prelude Message.Model Handler.RouterHandle CQRS.Model Corr.C15.\n'
+HEADER = 'From WM Require Import Base.Prelude Message.Model Handler.RouterHandle CQRS.Model CQRS.Reg CQRS.Calls Corr.C15.\n' \
+         'Definition mNF : mevent val := MNameFrom. Definition mUN : N -> N -> bool -> bool -> mevent val := MUnmarshal. Definition mHD : N -> N -> mevent val := MHandle.\n' \
+         'Definition mMA : val -> mevent val := MMarshal. Definition mNA : val -> mevent val := MName.\n' \
+         'Definition mNone : option (list (mevent val)) := None. Definition mSome (l : list (mevent val)) : option (list (mevent val)) := Some l.\n'
 PRE = ['PreNone', 'PreAck', 'PreNack']
 HRES = ['HROk', 'HRErr', 'HRPanic']
 OH = ['OhNil', 'OhPass', 'OhSwallow', 'OhSkipOk', 'OhSkipErr', 'OhPanic']
@@ -10,7 +13,7 @@ CB = ['CbOk', 'CbErr', 'CbPanic']
 PB = ['PubAccept', 'PubError', 'PubPanic']
 BRES = ['BOk', '(BErr EMarshal)', '(BErr ETopic)', '(BErr EHook)', '(BErr EModify)', '(BErr EPublish)', 'BPanicked']
 KIND = ['command', 'event', 'group']
-MARSH = ['json/default', 'json/StructName', 'json/NamedStruct(FullyQualified)', 'json/colliding', 'proto/default', 'proto/NamedStruct(StructName)']
+MARSH = ['json/default', 'json/StructName', 'json/NamedStruct(FullyQualified)', 'json/colliding', 'proto/default', 'proto/NamedStruct(StructName)', 'gogo/default(std fallback)', 'gogo/StructName,no fallback']
 
 TRUSTED_BASE = [
     'modelled, not verified: encoding/json and google.golang.org/protobuf (Section variables enc/dec of CQRS/Model.v; the round-trip law '
@@ -95,7 +98,7 @@ def reg_term(c):
     return '(RegC tab%d %s %s %s %s)' % (c['tab'], C.coq_bool(c['cmd']), C.coq_list(['(Hd %s %s)' % (N(h[0]), N(h[1])) for h in c['handlers']]),
                                        '(Some %s)' % N(c['dup']) if c['dup'] else 'None', C.coq_list(tr))
 
-TYPES = ['', 'CmdA', 'CmdB', 'EvtC', 'Named', 'Bad', 'wrapperspb.StringValue', 'wrapperspb.Int64Value', 'durationpb.Duration']
+TYPES = ['', 'CmdA', 'CmdB', 'EvtC', 'Named', 'Bad', 'wrapperspb.StringValue', 'wrapperspb.Int64Value', 'durationpb.Duration', 'gogotypes.StringValue', 'gogotypes.Int64Value']
 S = ['']
 def sv(i):
     return S[i] if 0 <= i < len(S) else i
@@ -120,6 +123,51 @@ def rbtrace(tr):
         elif e[0] == 'publish': out.append(dict(Publish=sv(e[1]), message=rsnap(e[2])))
         else: out.append(e)
     return out
+
+RRES = {'ok': 'ROk', 'validate': 'RValidateErr', 'topic': 'RTopicErr', 'sub': 'RSubErr', 'nohandlers': 'RNoHandlers', 'groupexists': 'RGroupExists',
+        'notdeprecated': 'RNotDeprecated', 'panic-dup-name': 'RPanicDupName'}
+def rspec_term(x):
+    return '(RS (Hd %s %s) %s %s %s %s)' % (N(x['id']), N(x['ty']), N(x['hname']), C.coq_bool(x['ptr']), '(Some %s)' % N(x['topic']) if x['topic'] else 'None', C.coq_bool(x['sub']))
+def rcall_term(c):
+    xs = C.coq_list([rspec_term(x) for x in c['specs'] or []])
+    if c['op'] == 'handlers': return '(CH (OAddHandlers %s))' % xs
+    if c['op'] == 'handler': return '(CH (OAddHandler %s))' % rspec_term(c['specs'][0])
+    if c['op'] == 'torouter': return '(CH OToRouter)'
+    return '(CG %s %s %s %s)' % (N(c['group']), xs, '(Some %s)' % N(c['gtopic']) if c['gtopic'] else 'None', C.coq_bool(c['gsub']))
+def gevent_term(e):
+    if e[0] == 'topic': return '(RegTopic %s %s)' % (N(e[1]), N(e[2]))
+    if e[0] == 'sub': return '(RegSub %s %s %s)' % (N(e[1]), N(e[2]), N(e[3]))
+    if e[0] == 'add' and e[2] >= 0: return '(RegAdd %s %s %s)' % (N(e[1]), N(e[2]), N(e[3]))
+    return None
+def rres_term(c):
+    if c['res'] == 'dup': return '(RDup %s)' % N(c['resarg'])
+    return RRES.get(c['res'])
+def regs_ok(c):
+    return all(rres_term(x) for x in c['calls']) and all(gevent_term(e) for x in c['calls'] for e in x['events']) and all(rh[1] >= 0 for rh in c['router'])
+def regs_term(c):
+    obs = C.coq_list(['(%s, %s)' % (C.coq_list([gevent_term(e) for e in x['events']]), rres_term(x)) for x in c['calls']])
+    router = C.coq_list(['(RH %s %s %s %s)' % (N(rh[0]), N(rh[1]), N(rh[2]), C.coq_list([N(i) for i in rh[3]])) for rh in c['router']])
+    return '(RegS tab%d %s %s %s %s %s %s)' % (c['tab'], C.coq_bool(c['kind'] == 1), C.coq_bool(c['depr']), C.coq_list([rcall_term(x) for x in c['calls']]), obs, router,
+                                             C.coq_list([N(i) for i in c['handlers']]))
+def describe_regs(c):
+    return dict(processor=KIND[c['kind']], deprecated=c['depr'],
+                calls=[dict(op=x['op'], group=sv(x['group']) if x['op'] == 'group' else None,
+                            handlers=[dict(id=h['id'], type=TYPES[h['ty']], HandlerName=sv(h['hname']), pointer=h['ptr'], topic=sv(h['topic']) if h['topic'] else 'error', subscriber_ok=h['sub']) for h in x['specs'] or []],
+                            observed=[[e[0]] + [sv(v) if i in (0,) or (e[0] == 'sub' and i == 2) or (e[0] == 'add' and i == 1) else v for i, v in enumerate(e[1:])] for e in x['events']],
+                            result=x['res']) for x in c['calls']],
+                router=[dict(name=sv(rh[0]), topic=sv(rh[1]) if rh[1] >= 0 else None, subscriber=rh[2], members=rh[3]) for rh in c['router']], Handlers=c['handlers'], anomalies=c.get('anomalies'))
+
+def mevent_term(e):
+    k = e[0]
+    if k == 'm-marshal': return '(mMA %s)' % val(e[1], e[2])
+    if k == 'm-name': return '(mNA %s)' % val(e[1], e[2])
+    if k == 'm-namefrom': return 'mNF'
+    if k == 'm-unmarshal': return '(mUN %s %s %s %s)' % (N(e[1]), N(e[2]), C.coq_bool(e[3]), C.coq_bool(e[4]))
+    if k == 'm-handle': return '(mHD %s %s)' % (N(e[1]), N(e[2]))
+    return 'mNF'
+def mtrace_term(x):
+    if not x.get('wrapped'): return 'mNone'
+    return '(mSome %s)' % C.coq_list([mevent_term(e) for e in x.get('mtrace') or []])
 
 def describe(d, tabs):
     return dict(readable=dict(metadata={sv(k): sv(v) for k, v in d['meta']}, payload=sv(d['payload']), sent_value=rv(*d['sent']) if d.get('sent') else None,
@@ -157,6 +205,7 @@ def run(ctx, nscen=None, nbus=None):
             res.count('marshaler=%s' % MARSH[tabs[d['tab']]['marshaler']])
             res.count('source=%s' % d['source'])
             res.count('onhandle=%s' % OH[d['onhandle']])
+            res.count('marshaler_wrapped=%s' % bool(d.get('wrapped')))
             res.count('flags=ackErr:%d,ackUnknown:%d' % (d['ack_errors'], d['ack_unknown']))
             res.count('handlers_in_router_handler=%d' % len(d['handlers']))
             res.count('router_handlers_on_processor=%d' % d['router_handlers'])
@@ -203,16 +252,43 @@ def run(ctx, nscen=None, nbus=None):
                 continue
             reggood.append(c)
             res.nontrivial.add(('reg', c['cmd'], tabs[c['tab']]['marshaler'], tuple(h[1] for h in c['handlers'])))
+        regsgood = []
+        for c in data.get('regscripts') or []:
+            res.evaluations += 1
+            res.count('registration_script=%s/%s' % (KIND[c['kind']], 'deprecated' if c['depr'] else 'config'))
+            for x in c['calls']:
+                res.count('registration_call=%s->%s' % (x['op'], x['res'] if not x['res'].startswith('other') else 'other'))
+            if c.get('anomalies') or not regs_ok(c):
+                res.violations.append(dict(signature='C15/registration/anomaly', what=(c.get('anomalies') or ['unclassified error / router handler without a subscribed subscriber'])[0], case=describe_regs(c)))
+                continue
+            regsgood.append(c)
+            res.nontrivial.add(('regs', c['kind'], c['depr'], tuple((x['op'], x['res'], tuple((h['ty'], h['ptr'], bool(h['topic']), h['sub']) for h in x['specs'] or [])) for x in c['calls'])))
         # evaluate: tables as definitions, cases refer to them
-        used = sorted({d['tab'] for d in good} | {c['tab'] for c in busgood} | {c['tab'] for c in reggood})
+        used = sorted({d['tab'] for d in good} | {c['tab'] for c in busgood} | {c['tab'] for c in reggood} | {c['tab'] for c in regsgood})
         tabdefs = ''.join('Definition tab%d : codec_tab := %s.\n' % (i, tab_term(tabs[i])) for i in used)
         r = C.coq_eval(pid, 'cases_%d' % rnd, HEADER + tabdefs
                        + 'Definition cases : list c15_case := %s.\n' % C.coq_list([case_term(d) for d in good])
                        + 'Definition buscases : list bus_case := %s.\n' % C.coq_list([bus_term(c) for c in busgood])
+                       + 'Definition mtraces : list (option (list (mevent val))) := %s.\n' % C.coq_list([mtrace_term(d) for d in good])
+                       + 'Definition bmtraces : list (option (list (mevent val))) := %s.\n' % C.coq_list([mtrace_term(c) for c in busgood])
+                       + 'Definition regscases : list regs_case := %s.\n' % C.coq_list([regs_term(c) for c in regsgood])
                        + 'Definition regcases : list reg_case := %s.\n' % C.coq_list([reg_term(c) for c in reggood])
                        + 'Definition tabs : list codec_tab := %s.\n' % C.coq_list(['tab%d' % i for i in used]),
                        [('R_mis', 'c15_mismatches cases'), ('R_vio', 'c15_violations cases'),
-                        ('B_mis', 'bus_mismatches buscases'), ('B_vio', 'bus_violations buscases'), ('T_rt', 'c15_tab_failures tabs'), ('G_mis', 'reg_mismatches regcases')])
+                        ('B_mis', 'bus_mismatches buscases'), ('B_vio', 'bus_violations buscases'), ('T_rt', 'c15_tab_failures tabs'), ('G_mis', 'reg_mismatches regcases'), ('S_mis', 'regs_mismatches regscases'), ('S_vio', 'regs_violations regscases'),
+                        ('M_mis', 'mc_mismatches cases mtraces'), ('M_vio', 'mc_violations cases mtraces'), ('BM_mis', 'bmc_mismatches buscases bmtraces'), ('BM_vio', 'bmc_violations buscases bmtraces')])
+        for i in r['M_vio']:
+            res.violations.append(dict(signature=sig_of(good[i]) + '/marshaler-calls', what='marshaler call discipline violated (NameFromMessage once and first / Unmarshal only on a name match into a fresh object / Handle on the decoded object / nothing after a failed Unmarshal)', case=dict(describe(good[i], tabs), marshaler_calls=good[i].get('mtrace'))))
+        for i in r['M_mis']:
+            res.mismatches.append(dict(kind='Corr.C15.mc_mismatch (CQRS/Calls.v proc_mcalls vs the marshaler calls of the closure)', explained_by_violation=i in r['M_vio'], case=dict(describe(good[i], tabs), marshaler_calls=good[i].get('mtrace'))))
+        for i in r['BM_vio']:
+            res.violations.append(dict(signature='C15/bus/marshaler-calls', what='a bus call must call Marshal exactly once, first, on the value sent (then Name iff it succeeded)', case=dict(describe_bus(busgood[i], tabs), marshaler_calls=busgood[i].get('mtrace'))))
+        for i in r['BM_mis']:
+            res.mismatches.append(dict(kind='Corr.C15.bmc_mismatch (CQRS/Calls.v bus_mcalls vs the marshaler calls of Send/Publish)', explained_by_violation=i in r['BM_vio'], case=dict(describe_bus(busgood[i], tabs), marshaler_calls=busgood[i].get('mtrace'))))
+        for i in r['S_vio']:
+            res.violations.append(dict(signature='C15/registration/monitor', what='registration script rejected by the C15 registration acceptor (router handlers = one per registrable handler of the longest good prefix, named HandlerName / group name, on the generated topic, own subscriber; callback parameters; duplicate batch / refused group changes nothing; result)', case=describe_regs(regsgood[i])))
+        for i in r['S_mis']:
+            res.mismatches.append(dict(kind='Corr.C15.regs_mismatch (CQRS/Reg.v reg_run vs AddHandlers/AddHandler/AddHandlersToRouter/AddHandlersGroup)', explained_by_violation=i in r['S_vio'], case=describe_regs(regsgood[i])))
         for i in r['G_mis']:
             res.mismatches.append(dict(kind='Corr.C15.reg_mismatch (CQRS/Model.v cmd_add_handlers_trace / register_handlers vs AddHandlers)', explained_by_violation=False, case=reggood[i]))
         for i in r['R_vio']:
